@@ -10,6 +10,8 @@ mod fam_fe;
 mod fam_send;
 mod fam_locks;
 mod fam_kern;
+mod fam_mem;
+mod fam_vq;
 mod peer;
 mod daemon;
 mod fam_route;
@@ -69,6 +71,8 @@ fn fam_dispatch(fam: &str, line: &str) -> Option<String> {
         "route" => Some(fam_route::run(line)),
         "log" => Some(fam_log::run(line)),
         "kern" => Some(fam_kern::run(line)),
+        "mem" => Some(fam_mem::run(line)),
+        "vq" => Some(fam_vq::run(line)),
         _ => None,
     }
 }
